@@ -12,6 +12,7 @@ FeeN == [id |-> "N1", at |-> "FEE", fees |-> <<Bps(1000, "F1")>>]       \* numer
 SwapN == [id |-> "N2", at |-> "TEST", fees |-> <<>>]
 Seqs == { <<>>, <<FeeA>>, <<FeeB>>, <<SwapAct>>, <<FeeA, SwapAct>>, <<SwapAct, FeeA>>, <<FeeB, SwapAct>>, <<SwapAct, FeeB>>,
           <<FeeA, FeeB>>, <<SwapAct, SwapAct>>, <<FeeA, SwapAct, FeeB>>, <<FeeA, FeeN>>, <<SwapAct, SwapN>>, <<FeeN, SwapN>>,
+          <<SwapAct3>>, <<SwapAct3, FeeA>>, <<FeeB, SwapAct3>>, <<SwapAct3, FeeB, FeeN>>,
           <<[id |-> "SWAP", at |-> "FEE", fees |-> <<>>]>>, <<[id |-> "FEE", at |-> "TEST", fees |-> <<>>]>> }
 Routes == { FwINT("U"), FwCCTP(0, "MINT_A", "NONE"), FwHYP("T1", 1, "R_A"), FwINT("F1") }
 Transfers == { Xfer(c, "uusdc", a, fw, acts) : c \in {0, 1}, a \in {1000, 1001, 1}, fw \in Routes, acts \in Seqs }
